@@ -468,6 +468,9 @@ NOOLD = "NOOLD"                            # cause.old is None (creation)
 CRITS = [None, {"v": "x"}, {"v": "y"}, "P", "A", {"cb": "is_x"}]
 EXT_VCRITS = CRITS + [{"cb": "is_none"}, {"cb": "not_none"}, {"cb": "truthy"}, "T"]
 EXT_MCRITS = CRITS[1:] + [{"cb": "is_none"}, {"cb": "not_none"}, {"cb": "nonempty"}, {"cb": "true"}, {"cb": "false"}, {"v": ""}]
+FALSY: list = ["", 0, False, [], {}]         # falsy but present values / meaningful criteria
+FCRITS = [None, {"v": "x"}, "P", "A", {"cb": "is_x"}, {"cb": "truthy"}] + [{"v": f} for f in FALSY]
+MCRITS_E = CRITS + [{"v": ""}]
 LEAN_H = ("fn", "id", "ch", "sel", "sub", "l", "a", "w", "f", "v", "o", "n", "fnc", "rf", "r", "i", "d")
 LEAN_C = ("ch", "l", "a", "b", "o", "n", "r", "i", "m")
 
@@ -623,7 +626,22 @@ def doc_resolve(d: Any, path: list[str]) -> Any:
     return d
 
 
-def doc_check(crit: Any, v: Any, cbs: dict, absent_arg: Any = None) -> bool:
+def strict_eq(a: Any, b: Any) -> bool:
+    """JSON equality without Python's bool/int coercion (True != 1, False != 0), recursively"""
+    if isinstance(a, bool) or isinstance(b, bool):
+        return isinstance(a, bool) and isinstance(b, bool) and a == b
+    if isinstance(a, list) and isinstance(b, list):
+        return len(a) == len(b) and all(strict_eq(x, y) for x, y in zip(a, b))
+    if isinstance(a, dict) and isinstance(b, dict):
+        return a.keys() == b.keys() and all(strict_eq(a[k], b[k]) for k in a)
+    return type(a) is type(b) and a == b
+
+
+def py_eq(a: Any, b: Any) -> bool:
+    return bool(a == b)
+
+
+def doc_check(crit: Any, v: Any, cbs: dict, absent_arg: Any = None, eq: Callable[[Any, Any], bool] = py_eq) -> bool:
     """'There are only a few kinds of checks': specific value, PRESENT/ABSENT, per-value callback
     ('The passed value will be None if the value is absent in the resource')."""
     if crit == "P":
@@ -633,11 +651,35 @@ def doc_check(crit: Any, v: Any, cbs: dict, absent_arg: Any = None) -> bool:
     if isinstance(crit, dict) and "cb" in crit:
         return bool(cbs[crit["cb"]](absent_arg if v is MISSING else v))
     if isinstance(crit, dict) and "v" in crit:
-        return v is not MISSING and v == crit["v"]
+        return v is not MISSING and eq(v, crit["v"])
     raise ValueError(f"not a documented criterion: {crit!r}")
 
 
 def doc_parts(h: dict, st: dict, dev: frozenset = frozenset()) -> dict | None:
+    """The judged verdict. Python's bool/int coercion under `==` (True == 1, False == 0) is modelled
+    explicitly on the Lean side (J.pyEq) and tied, but it is NOT judged by this oracle: when the
+    documented verdict depends on whether 0/False (1/True) count as equal, the case is undefined."""
+    a = doc_parts_eq(h, st, dev, py_eq)
+    if a is None or not COERCIBLE(h, st):
+        return a
+    return a if a == doc_parts_eq(h, st, dev, strict_eq) else None
+
+
+def _has_boolnum(x: Any) -> bool:
+    if isinstance(x, (bool, int)):
+        return True
+    if isinstance(x, list):
+        return any(_has_boolnum(y) for y in x)
+    if isinstance(x, dict):
+        return any(_has_boolnum(y) for y in x.values())
+    return False
+
+
+def COERCIBLE(h: dict, st: dict) -> bool:
+    return h["f"] is not None and (_has_boolnum([h["v"], h["o"], h["n"]]) or _has_boolnum([st["o"], st["n"], st["b"].get("spec")]))
+
+
+def doc_parts_eq(h: dict, st: dict, dev: frozenset, eq: Callable[[Any, Any], bool]) -> dict | None:
     """Per documented rule, does it hold? None: this declaration cannot be made through kopf.on.*
     (or the docs say nothing about it). `dev` switches on a *named deviation* from the docs and is
     used only to classify an observed failure against the known findings."""
@@ -672,14 +714,14 @@ def doc_parts(h: dict, st: dict, dev: frozenset = frozenset()) -> dict | None:
         aarg = OPAQUE if "cb_token" in dev else None
 
         def chk(c: Any, x: Any) -> bool:
-            return doc_check(c, x, FIELD_CBS, aarg)
+            return doc_check(c, x, FIELD_CBS, aarg, eq)
         if st["_cls"] == "changing":
             old, new = doc_resolve(st["o"], h["f"]), doc_resolve(st["n"], h["f"])
             if update_like:
                 # "The value= filter applies to either the old or the new value"
                 parts["value"] = chk(vcrit, old) or chk(vcrit, new)
                 # "restricts the update handlers to cases where the field is affected in any way"
-                affected = not ((old is MISSING and new is MISSING) or (old is not MISSING and new is not MISSING and old == new))
+                affected = not ((old is MISSING and new is MISSING) or (old is not MISSING and new is not MISSING and eq(old, new)))
                 parts["change"] = (affected and (h["o"] is None or chk(h["o"], old)) and (h["n"] is None or chk(h["n"], new)))
             else:
                 # "check the resource in its current ---and only--- state"
@@ -919,7 +961,7 @@ def crit_kind(c: Any) -> str:
         return c
     if "cb" in c:
         return "cb"
-    return "null" if c["v"] is None else "lit"
+    return "null" if c["v"] is None else ("falsy" if not c["v"] else "lit")
 
 
 def h_kinds(h: dict) -> str:
@@ -962,7 +1004,10 @@ def eval_grid(env: Env, rec: Rec, hs: list[dict], sts: list[dict], what: str, *,
             parts = doc_parts(h, st)
             rec.evaluations += 1
             if parts is None:
-                rec.count("oracle", "undefined (not declarable via kopf.on / cross-class)")
+                if doc_parts_eq(h, st, frozenset(), py_eq) is not None:
+                    rec.count("oracle", "not judged (verdict depends on bool/int coercion under ==)")
+                else:
+                    rec.count("oracle", "undefined (not declarable via kopf.on / cross-class)")
                 vec = "?"
             else:
                 em = all(parts.values())
@@ -1017,6 +1062,30 @@ def compare_grid(rec: Rec, what: str, impl: tuple, out: Any) -> None:
                          {"input": {"kind": "pair", "handler": h, "state": sts[j]}, "impl": irow[j],
                           "model": mrow[j] if isinstance(mrow, str) and j < len(mrow) else mrow})
     rec.traces += len(hs) * len(sts) - 1
+
+
+def falsy_cases() -> list[tuple[str, list[dict], list[dict]]]:
+    """criteria and field/label values that are falsy but present: '', 0, False, [], {} — the complete
+    product value x old x new x field_needs_change over FCRITS against old x new over the falsy values"""
+    fvals = [MISSING, "x"] + FALSY
+    sp = lambda v: {} if v is MISSING else {"f": v}
+    csts = [state("changing", body_extra={"spec": sp(nv)}, old=None if ov == NOOLD else {"spec": sp(ov)}, new={"spec": sp(nv)},
+                  reason="create" if ov == NOOLD else "update") for ov, nv in itertools.product(fvals + [NOOLD], fvals)]
+    chs = [hspec("changing", f=FIELD, v=v, o=o, n=n, fnc=fnc) for v, o, n, fnc in itertools.product(FCRITS, FCRITS, FCRITS, [False, True])]
+    out = [("falsy field criteria (changing)", chs, csts)]
+    for cls in ("watching", "spawning"):
+        out.append((f"falsy field criteria ({cls})", [hspec(cls, f=FIELD, v=v, rf=True if cls == "spawning" else None) for v in FCRITS],
+                    [state(cls, body_extra={"spec": sp(v)}) for v in fvals]))
+    mvals = [None, "x", ""]
+    mh = [hspec("changing", l=pat(LK, lc), a=pat(AK, ac), w=w) for lc, ac, w in itertools.product(MCRITS_E, MCRITS_E, [None, True, False])]
+    mh += [hspec("changing", l=[], a=pat(AK, ac)) for ac in MCRITS_E] + [hspec("changing", l=pat(LK, lc), a=[]) for lc in MCRITS_E]
+    ms = [state("changing", labels={} if lv is None else {LK: lv}, annotations={} if av is None else {AK: av},
+                old={"spec": {}}, new={"spec": {}}, reason="noop", meta_shape=shape)
+          for lv, av, shape in itertools.product(mvals, mvals, ["full", "sparse"])]
+    out.append(("empty-string label/annotation values and criteria", mh, ms))
+    wh = [dict(h, _cls="watching", ch=False) for h in mh]
+    out.append(("empty-string label/annotation values and criteria (watching)", wh, [dict(st, _cls="watching", ch=False, o=None, n=None) for st in ms]))
+    return out
 
 
 def ext_field_states() -> list[dict]:
@@ -1079,12 +1148,12 @@ def random_large_cases(rng: random.Random, n: int) -> list[tuple[list[dict], lis
         for _ in range(8):
             cls = rng.choice(["changing", "changing", "watching", "spawning", "indexing"])
             path = rng.choice([None, FIELD, ["spec", "g", "h"], ["status", "s"]])
-            v = rng.choice(EXT_VCRITS[:-1] + [{"v": rng.choice([1, "x", {"h": "x"}])}]) if path else None
+            v = rng.choice(EXT_VCRITS[:-1] + [{"v": rng.choice([1, "x", {"h": "x"}] + FALSY)}] * 3) if path else None
             o = n_ = fnc = None
             if cls == "changing" and path and rng.random() < 0.6:
                 fnc = rng.choice([False, True])
                 if fnc and v is None:
-                    o, n_ = rng.choice(CRITS), rng.choice(CRITS)
+                    o, n_ = rng.choice(FCRITS), rng.choice(FCRITS)
             hs.append(hspec(cls, sel=rng.choice([PLURAL, PLURAL, PLURAL, None, "others"]), l=rpat(), a=rpat(),
                             w=rng.choice([None, None, True, False]), f=path, v=v, o=o, n=n_, fnc=fnc))
         sts_by_cls: dict[str, list[dict]] = {}
@@ -1092,9 +1161,9 @@ def random_large_cases(rng: random.Random, n: int) -> list[tuple[list[dict], lis
         def rspec() -> dict:
             sp: dict[str, Any] = {}
             if rng.random() < 0.6:
-                sp["f"] = rng.choice(["x", "y", None, 1, {"deep": 1}])
+                sp["f"] = rng.choice(["x", "y", None, 1, {"deep": 1}] + FALSY)
             if rng.random() < 0.5:
-                sp["g"] = rng.choice([{"h": "x"}, {"h": 1}, {}, "scalar"])
+                sp["g"] = rng.choice([{"h": "x"}, {"h": 1}, {"h": 0}, {"h": ""}, {"h": False}, {}, "scalar"])
             return sp
         for cls in ("changing", "watching", "spawning", "indexing"):
             sts = []
@@ -1133,9 +1202,9 @@ def random_decl(rng: random.Random, cls: str) -> tuple[dict, str]:
         v = o = n = None
         if f:
             if kind in ("update", "field") and rng.random() < 0.5:
-                o, n = rng.choice(CRITS), rng.choice(CRITS)
+                o, n = rng.choice(CRITS + FCRITS[6:]), rng.choice(CRITS + FCRITS[6:])
             else:
-                v = rng.choice(CRITS)
+                v = rng.choice(CRITS + FCRITS[6:])
         k = DECL_KIND[kind]
         rf = (rng.random() < 0.7) if kind == "delete" else None
         d = rng.choice([None, False, True]) if kind == "resume" else None
@@ -1232,7 +1301,8 @@ def random_select_case(rng: random.Random) -> dict:
         else:
             h, kind = random_decl(rng, cls)
             handlers.append((h, kind, rng.random() < 0.6))
-    lv, av, ov, nv = rng.choice(VALS + ["x"]), rng.choice(VALS + ["x"]), rng.choice(VALS + [NOOLD]), rng.choice(VALS)
+    lv, av = rng.choice(VALS + ["x", ""]), rng.choice(VALS + ["x", ""])
+    ov, nv = rng.choice(VALS + [NOOLD] + FALSY[:3]), rng.choice(VALS + FALSY)
     if cls == "changing":
         reason = rng.choice(["create"] * 3 + ["update"] * 3 + ["delete"] * 2 + ["resume"] * 2 + ["noop", "free", "gone"])
         st = state(cls, labels={} if lv is None else {LK: lv}, annotations={} if av is None else {AK: av},
@@ -1280,15 +1350,16 @@ def random_cycle_case(rng: random.Random) -> dict:
             f = FIELD if kind == "field" or rng.random() < 0.35 else None
             v = o = n = None
             if f and kind in ("update", "field") and rng.random() < 0.4:
-                o, n = rng.choice(CRITS), rng.choice(CRITS)
+                o, n = rng.choice(CRITS + FCRITS[6:]), rng.choice(CRITS + FCRITS[6:])
             elif f:
-                v = rng.choice(CRITS)
+                v = rng.choice(CRITS + FCRITS[6:])
             k = DECL_KIND.get(kind, dict(r=None, fnc=False, i=False))
             rf = True if cls == "spawning" else ((rng.random() < 0.7) if kind == "delete" else None)
             hs.append((hspec(cls, fn=len(hs) % 6, id=f"h{len(hs)}", sel=rng.choice([PLURAL] * 6 + ["others"]), l=l, a=a,
                              w=rng.choice([None, None, None, True, False]), f=f, v=v, o=o, n=n, fnc=k["fnc"], rf=rf, r=k["r"],
                              i=k["i"] or None, d=rng.choice([None, True]) if kind == "resume" else None), kind))
-    lv, av, nv, ov = rng.choice(VALS), rng.choice(VALS), rng.choice(VALS), rng.choice(VALS + [NOOLD, NOOLD])
+    lv, av = rng.choice(VALS + [""]), rng.choice(VALS + [""])
+    nv, ov = rng.choice(VALS + FALSY), rng.choice(VALS + [NOOLD, NOOLD] + FALSY)
     return {"handlers": hs, "label": lv, "annotation": av, "field": nv, "stored": ov,
             "event": rng.choice(["ADDED", "MODIFIED", "MODIFIED", None, "DELETED"]),
             "own_finalizer": rng.random() < 0.3, "foreign_finalizer": rng.random() < 0.2,
@@ -1514,6 +1585,9 @@ def fixed_sweeps(env: Env, rec: Rec, use_model: bool = True, full: bool = True, 
     eval_grid(env, rec, ext, ext_field_states(), "extended field criteria", **kw)
     wst = [state("watching", body_extra={"spec": sp}) for sp in ({}, {"f": "x"}, {"f": None}, {"f": {"deep": 1}}, {"f": 1}, "scalar")]
     eval_grid(env, rec, ext_field_handlers("watching"), wst, "extended field criteria (watching)", **kw)
+    # falsy-but-present values and criteria: '', 0, False, [], {} (complete product, both tiers)
+    for what, fhs, fsts in falsy_cases():
+        eval_grid(env, rec, fhs, fsts, what, sample_every=39989, **kw)
     # extended metadata alphabet: two keys, empty strings, absent metadata
     mh, ms = ext_meta_cases()
     for cls in ("changing", "watching", "spawning"):
